@@ -3,8 +3,11 @@
 Primitive level: every request of the C02 primitive stream is run a second time with all cluster values (buffer
 contents, supplied clusters, set_masks bounds) relabelled by a strictly increasing map — on the crate and on the Lean
 model (correspondence) — and the crate's relabelled trace is compared with its original trace after un-relabelling.
+The crate's original traces are also checked against `a primitive never changes a mask bit outside glyph_flag::DEFINED`
+(prims-feature-bits; theorem C15_prims_keep_feature_bits).
 Shape level: paired shape() calls through the public API (relabelled input + feature ranges; the three levels pairwise)
-on the corpus, on structured Hangul over 11 support variants and on generated AAT fonts with morx + feat.
+on the corpus, on structured Hangul over 11 support variants, on generated AAT fonts with morx + feat and on generated
+GSUB fonts that delete glyphs before lookups of ranged user features (gsub-del).
 Shaper level: the Hangul preprocess hook at the three levels and the morx substitute hook under relabelling with gaps
 (both also as correspondence streams against the Lean models the C15 theorems are about)."""
 import re
@@ -1266,6 +1269,9 @@ def run(ctx):
     ctx.assumptions += [
         "theorems are about the Lean model of the buffer primitives (Buf.lean) and the cluster pipeline pieces (Cluster.lean); the tie "
         "to the crate is the cluster-prims-relabelled correspondence stream (and C02's cluster-prims stream)",
+        "that the cluster level changes clusters and flags only rests, inside the buffer, on C15_prims_keep_feature_bits (merges, flag "
+        "routines, form_clusters and both deletions write cluster values and glyph flags only: glyph ids and the feature bits of every "
+        "mask stay) — checked on the crate by the prims-feature-bits oracle over the same walks (random feature bits in the masks)",
         "of the shapers' own code two pieces that look at clusters / the level are covered by theorems on their models: Hangul "
         "preprocessing (C15_hangul_levels_and_labels; tie: hangul-pre-levels) and the morx non-contextual feature-range lookup "
         "(C15_enabledAt_relabel, C15_relabel_noncontextual; tie: morx-run-relabelled); the other shapers and the GSUB/GPOS "
@@ -1296,7 +1302,7 @@ def run(ctx):
                             "(9 .. 1000, 0, fractional) and ppem= drawn per request; 5 directions; 0-2 ranged features (trak, kern, "
                             "liga, mark, ccmp, smcp) with bounds at grapheme starts, sometimes trak=0",
                what_levels="the same grapheme requests")
-    eval_pairs(ctx, shim, del_pair_requests(ctx.rng("gsub-del"), ctx.budget(150, 2500), ctx.budget(10, 16)), gen="gsub-del",
+    eval_pairs(ctx, shim, del_pair_requests(ctx.rng("gsub-del"), ctx.budget(300, 4000), ctx.budget(10, 16)), gen="gsub-del",
                what_relabel="generated GSUB fonts (letters + combining marks of Latin / Cyrillic / Hebrew / Arabic, optional GDEF mark "
                             "classes, optional GPOS SinglePos under a user tag) with 3-7 lookups in random order: glyph DELETION "
                             "(MultipleSubst to the empty sequence, directly or nested in a (Chain)Context format 3 lookup) followed by "
